@@ -316,9 +316,16 @@ func cmdCheck(args []string) int {
 	dischargeAll(solverObls, dir, timeout, 5)
 	// one retry with a doubled timeout for obligations no solver decided (guards against load-induced timeouts)
 	var retry []*Obligation
+	earlyFindings := loadFindings()
 	for _, o := range solverObls {
 		if o.Status == "unknown" || (o.Status == "failed" && strings.Contains(o.Solver, "+relaxed")) {
-			if !isT3(o.Label) {
+			listed := false
+			for _, f := range earlyFindings {
+				if f.Kind == "finding" && f.Property == *prop && strings.HasPrefix(o.Name, f.Obligation) {
+					listed = true // a recorded finding is expected to stay red: retrying it only costs two more timeouts
+				}
+			}
+			if !isT3(o.Label) && !listed {
 				retry = append(retry, o)
 			}
 		}
